@@ -158,7 +158,13 @@ def population_subject(rng):
            ('s1 elsewhere', lambda w: w['pop'].compute_sensitivities(w['th'], w['X'] * 1.0625, **kw(w))),
            ('psi elsewhere', lambda w: w['pop'].compute_individual_parameters(w['th'], w['X'] * 1.0625, **kw(w))),
            ('psi', lambda w: w['pop'].compute_individual_parameters(w['th'], w['X'], **kw(w))),
-           ('sample', lambda w: w['pop'].sample(w['th'], n_samples=n, seed=9, **kw(w)))]
+           ('ll other parameters', lambda w: w['pop'].compute_log_likelihood(w['th'] * 1.0625, w['X'], **kw(w))),
+           ('sample other parameters', lambda w: w['pop'].sample(w['th'] * 1.125, n_samples=n, seed=9, **kw(w))),
+           ('sample', lambda w: w['pop'].sample(w['th'], n_samples=n, seed=9, **kw(w))),
+           ('sample seed 0', lambda w: w['pop'].sample(w['th'], n_samples=n, seed=0, **kw(w))),
+           ('sample numpy seed', lambda w: w['pop'].sample(w['th'], n_samples=n, seed=np.int64(9), **kw(w))),
+           # someone else uses the global generators in between (the op itself returns nothing random)
+           ('global generators used', lambda w: (np.random.random(3), random.random(), True)[2])]
     return Subject('population model %s%s' % ('+'.join(s.describe() for s in S), ' reduced' if case['fix_first'] else ''),
                    build, ops)
 
@@ -216,11 +222,17 @@ def likelihood_subject(rng):
             if isinstance(em, chi.ReducedErrorModel):
                 em.fix_parameters({'Sigma rel.': 2.0, 'Sigma base': 3.0})
             em.set_parameter_names(None) if not isinstance(em, chi.ReducedErrorModel) else None
+    swap = rng.random() < 0.5
+
     def reconfigure(w):
-        w['ll'].fix_parameters({'p1': 1.5})        # re-fix an already fixed parameter at another value
+        if swap:                                   # release one parameter and fix another in ONE call
+            w['ll'].fix_parameters({'p1': None, 'p0': 0.5})
+        else:
+            w['ll'].fix_parameters({'p1': 1.5})    # re-fix an already fixed parameter at another value
     return Subject('log-likelihood %s%s%s%s' % ('+'.join(kinds), ' fixed mech' if fix_mech else '',
                                                 ' fixed error' if fix_err else '',
-                                                ' user-reduced mech' if user_reduced else ''), build, ops, mutate,
+                                                ' user-reduced mech' if user_reduced else '') + (
+                       ' swap' if swap and fix_mech else ''), build, ops, mutate,
                    reconfigure if fix_mech else None)
 
 
@@ -377,12 +389,22 @@ def check_subject(sub, rng, n_calls=14):
         if sub.mutate is not None and step == n_calls // 2:
             sub.mutate(w)
             history.append('<user models reconfigured>')
+        forced = None
         if sub.reconfigure is not None and step == (2 * n_calls) // 3:
+            # an evaluation with sensitivities right before and right after the reconfiguration (state that such an
+            # evaluation leaves behind must not survive it)
+            s1ops = [(la, f) for la, f in sub.ops if la.split()[-1] == 's1' or la.startswith('s1')]
+            if s1ops:
+                forced = rng.choice(s1ops)
+                if freeze(forced[1](w)) != refs[forced[0]]:
+                    return ('%s: "%s" after the calls %s returns a different result from the same call on a freshly '
+                            'built object' % (sub.name, forced[0], history))
+                history.append(forced[0])
             sub.reconfigure(w)
             refs = refs2
             kept = []
             history.append('<object reconfigured>')
-        label, fn = rng.choice(sub.ops)
+        label, fn = forced if forced is not None else rng.choice(sub.ops)
         history.append(label)
         r = fn(w)
         if label.startswith('invariant:') and r is not True:
